@@ -221,9 +221,10 @@ func Delete(seq Sequence, offset, length int) Sequence {
 	info = tryExpand(info, offset, -length)
 	seq = WithInfo(seq, info)
 
-	ff := seq.Features()
-	for i, f := range ff {
-		ff[i].Loc = f.Loc.Expand(offset, -length)
+	ff := make(FeatureSlice, len(seq.Features()))
+	for i, f := range seq.Features() {
+		f.Loc = f.Loc.Expand(offset, -length)
+		ff[i] = f
 	}
 	seq = WithFeatures(seq, ff)
 
